@@ -594,18 +594,19 @@ func init() {
 		stats := &c06Stats{}
 		reported := map[string]bool{}
 		report := func(cs *c06Case, f *finding, fixture string) {
-			if reported[f.key] {
+			if reported[f.key+"@"+cs.L.Name] {
 				return
 			}
-			reported[f.key] = true
+			reported[f.key+"@"+cs.L.Name] = true
 			scs, sf, buf := cs, f, []byte(nil)
 			if fixture == "" {
 				scs, sf, buf = c06Shrink(c, cs, f)
 			}
 			rp := scs.replay(sf, buf)
 			rp.Fixture = fixture
-			if fixture != "" && len(rp.Keys) > 64 {
-				rp.Keys, rp.Vals = rp.Keys[:64], rp.Vals[:64]
+			if fixture != "" {
+				// keys = testkeys.Load(set of the file name), values = int32 0..n-1
+				rp.Keys, rp.Vals, rp.Stream = nil, nil, ""
 			}
 			c.Or.Violate(sf.key+"@"+scs.L.Name, sf.what+" (layout "+scs.L.Name+")", rp)
 		}
@@ -647,37 +648,7 @@ func init() {
 		}
 		c.Or.Extra["oracle_selftest_detects_swapped_values"] = selftest
 
-		// 2. the fixtures through the oracle
-		spec32 := specByName("I32")
-		for _, f := range fx {
-			keys := c06Keys(f.Set)
-			vals, _ := c06FixtureValues(len(keys))
-			ids := make([]uint64, len(keys))
-			for i := range ids {
-				ids[i] = uint64(i)
-			}
-			tc := &TrieCase{ID: "fixture:" + f.File, Opt: c06Opt(f.Layout), Enc: "I32", Keys: keys, IDs: ids, Kind: "fixture"}
-			cs := &c06Case{TC: tc, L: f.Layout}
-			c.Or.Case("fixture "+f.File, len(keys) >= 2)
-			c.Or.Count("fixture:" + f.Layout.Name)
-			st, err := c06Load(f.Buf, spec32.Enc)
-			if err != nil {
-				report(cs, &finding{key: "C06:fixture-load", what: "C06: archived fixture " + f.File + " does not load: " + err.Error(), got: err.Error(), want: "a loaded trie"}, f.File)
-				continue
-			}
-			var qs, starts []string
-			if cs.complete() {
-				r := c.R.Fork()
-				qs = genQueries(r, keys, len(keys)+300)
-				starts = c06ScanStarts(r, keys, qs)
-			}
-			if fd := c06Oracle(st, spec32, keys, vals, cs.complete(), qs, starts, 500); fd != nil {
-				report(cs, fd, f.File)
-			}
-			c.Or.Add("queries", 3*len(keys)+3*len(qs))
-		}
-
-		// 3. generated key sets x all layouts
+		// 2. generated key sets x all layouts
 		nsets := c.N(60, 900)
 		type gen struct {
 			kind string
@@ -700,13 +671,17 @@ func init() {
 			}
 		}
 		if c.Thorough() {
-			// > 65535 old nodes: 60000 keys of 2..4 arbitrary bytes plus the empty key
+			// > 65535 old nodes: 70000 keys of 3..5 arbitrary bytes plus the empty key
 			r := c.R.Fork()
 			ks := []string{""}
-			for i := 0; i < 60000; i++ {
-				ks = append(ks, randBytes(r, 2+r.Intn(3)))
+			for i := 0; i < 70000; i++ {
+				ks = append(ks, randBytes(r, 3+r.Intn(3)))
 			}
-			sets = append(sets, gen{">65535-nodes", uniqSorted(ks)})
+			ks = uniqSorted(ks)
+			if old, err := c06BuildOld(ks, false); err != nil || old.N <= 65535 {
+				panic("C06: the >65535-node key set has too few nodes")
+			}
+			sets = append(sets, gen{">65535-nodes", ks})
 		}
 		maxNodes, maxStep := 0, 0
 		for si, g := range sets {
@@ -776,6 +751,37 @@ func init() {
 				}
 			}
 		}
+		// 3. the archived fixtures through the same oracle (after the generated sets, so that a finding is
+		// reported with a small generated replay when one exists)
+		spec32 := specByName("I32")
+		for _, f := range fx {
+			keys := c06Keys(f.Set)
+			vals, _ := c06FixtureValues(len(keys))
+			ids := make([]uint64, len(keys))
+			for i := range ids {
+				ids[i] = uint64(i)
+			}
+			tc := &TrieCase{ID: "fixture:" + f.File, Opt: c06Opt(f.Layout), Enc: "I32", Keys: keys, IDs: ids, Kind: "fixture"}
+			cs := &c06Case{TC: tc, L: f.Layout}
+			c.Or.Case("fixture "+f.File, len(keys) >= 2)
+			c.Or.Count("fixture:" + f.Layout.Name)
+			st, err := c06Load(f.Buf, spec32.Enc)
+			if err != nil {
+				report(cs, &finding{key: "C06:fixture-load", what: "C06: archived fixture " + f.File + " does not load: " + err.Error(), got: err.Error(), want: "a loaded trie"}, f.File)
+				continue
+			}
+			var qs, starts []string
+			if cs.complete() {
+				r := c.R.Fork()
+				qs = genQueries(r, keys, len(keys)+300)
+				starts = c06ScanStarts(r, keys, qs)
+			}
+			if fd := c06Oracle(st, spec32, keys, vals, cs.complete(), qs, starts, 500); fd != nil {
+				report(cs, fd, f.File)
+			}
+			c.Or.Add("queries", 3*len(keys)+3*len(qs))
+		}
+
 		c.Or.Extra["max_old_nodes_in_a_generated_set"] = maxNodes
 		c.Or.Extra["max_step_nibbles_in_a_generated_set"] = maxStep
 		c.Or.Extra["node_view"] = map[string]interface{}{
